@@ -147,7 +147,9 @@ Definition render_entry (e : tkey * string) : string :=
 Definition render (m : amap) : string := concat_strings (map render_entry (ins_all m [])).
 
 (* ------------------------------------------------------------------ harness nodes *)
-(* kind: 0 string->string, 1 map->string, 2 string->map, 3 map->map
+(* kind: 0 string->string, 1 map->string, 2 string->map, 3 map->map (a rendering of the input
+         under one key), 4 map->map (the input map itself under one key: a nested map, emitted
+         in one chunk or, by the chunk-by-chunk transformer, chunk by chunk)
    fail: 0 never, 1 at call time in every native, 2 as an error item in the middle of the
          output stream of the S / T natives (and at call time in the I / C natives, which
          have no output stream) *)
@@ -164,11 +166,12 @@ Definition f_spec (sp : nspec) (x : val) : res val :=
   | 1%N, VM m => Ok (VS (ns_tag sp +++ "{"%string +++ render m +++ "}"%string))
   | 2%N, VS s => Ok (VM (ins_all [(kstr (ns_k1 sp), ns_tag sp +++ "<"%string +++ s); (kstr (ns_k2 sp), s +++ ">"%string)] []))
   | 3%N, VM m => Ok (VM [(kstr (ns_k1 sp), ns_tag sp +++ "{"%string +++ render m +++ "}"%string)])
+  | 4%N, VM m => Ok (VM (nest (ns_k1 sp) m))
   | _, _ => Err e_type
   end.
 
 Definition emit (sp : nspec) (y : val) : stream val :=
-  let cs := split_val (ns_pol sp) y in
+  let cs := if N.eqb (ns_kind sp) 4 then [y] else split_val (ns_pol sp) y in
   if N.eqb (ns_fail sp) 2 then map Val (firstn ((List.length cs + 1) / 2) cs) ++ [Bad e_node]
   else map Val cs.
 
@@ -201,8 +204,20 @@ Definition live_T (sp : nspec) (s : stream val) : stream val :=
   else let (r, b) := upto_bad (map fw s) in
        Val pre :: r ++ (if b then [] else [Val suf]).
 
+(* the chunk-by-chunk transformer of kind 4: every map chunk goes out under the key, up to
+   the first error item *)
+Definition fw4 (sp : nspec) (it : item val) : item val :=
+  match it with
+  | Val (VM m) => Val (VM (nest (ns_k1 sp) m))
+  | Val (VS _) => Bad e_type
+  | Bad e => Bad e
+  end.
+
+Definition live_T4 (sp : nspec) (s : stream val) : stream val :=
+  if N.eqb (ns_fail sp) 2 then [Bad e_node] else fst (upto_bad (map (fw4 sp) s)).
+
 Definition is_live (sp : nspec) : bool :=
-  ns_live sp && (N.eqb (ns_kind sp) 0 || N.eqb (ns_kind sp) 2).
+  ns_live sp && (N.eqb (ns_kind sp) 0 || N.eqb (ns_kind sp) 2 || N.eqb (ns_kind sp) 4).
 
 Definition node_of_spec (sp : nspec) : node val val :=
   let fl := ns_fail sp in
@@ -213,7 +228,7 @@ Definition node_of_spec (sp : nspec) : node val val :=
                                           else Err e_node) else None;
      nT := if ns_T sp then Some (fun s =>
               if N.eqb fl 1 then Err e_node
-              else if is_live sp then Ok (live_T sp s)
+              else if is_live sp then Ok (if N.eqb (ns_kind sp) 4 then live_T4 sp s else live_T sp s)
               else Ok (match vsconcat s with
                        | Ok x => match f_spec sp x with Ok y => emit sp y | Err e => [Bad e] | Panic => [Bad e_node] end
                        | Err e => [Bad e]
